@@ -503,12 +503,91 @@ func c15StartServer(t *testing.T, dom string) *c15Server {
 	return s
 }
 
+// c15ReqTap counts the datagrams the requester's receive loop has really read from its socket.
+type c15ReqTap struct {
+	mu    sync.Mutex
+	reads int
+}
+
+func (t *c15ReqTap) n() int {
+	t.mu.Lock()
+	defer t.mu.Unlock()
+	return t.reads
+}
+
+type c15ReqConn struct {
+	net.Conn
+	tap *c15ReqTap
+}
+
+func (c *c15ReqConn) Read(p []byte) (int, error) {
+	k, err := c.Conn.Read(p)
+	if err == nil {
+		c.tap.mu.Lock()
+		c.tap.reads++
+		c.tap.mu.Unlock()
+	}
+	return k, err
+}
+
+var (
+	c15ReqTapsMu sync.Mutex
+	c15ReqTaps   = map[*requester.Requester]*c15ReqTap{}
+)
+
+func c15ReqTapOf(rq *requester.Requester) *c15ReqTap {
+	c15ReqTapsMu.Lock()
+	defer c15ReqTapsMu.Unlock()
+	return c15ReqTaps[rq]
+}
+
 func (s *c15Server) newRequester(t *testing.T) *requester.Requester {
-	rq, err := requester.NewRequester(&requester.Config{TransportMethod: requester.UDP, Target: s.addr, BaseDomain: s.dom, Pubkey: s.pub})
+	return s.newRequesterFor(t, s.dom)
+}
+
+// newRequesterFor makes a requester whose base domain may differ from the responder's (the responder then answers NXDOMAIN).
+func (s *c15Server) newRequesterFor(t *testing.T, baseDomain string) *requester.Requester {
+	tap := &c15ReqTap{}
+	dial := func(ctx context.Context, network, addr string) (net.Conn, error) {
+		c, err := (&net.Dialer{}).DialContext(ctx, network, addr)
+		if err != nil {
+			return nil, err
+		}
+		return &c15ReqConn{Conn: c, tap: tap}, nil
+	}
+	rq, err := requester.NewRequester(&requester.Config{TransportMethod: requester.UDP, Target: s.addr, BaseDomain: baseDomain, Pubkey: s.pub, DialTransport: dial})
 	if err != nil {
 		t.Fatal(err)
 	}
+	c15ReqTapsMu.Lock()
+	c15ReqTaps[rq] = tap
+	c15ReqTapsMu.Unlock()
 	return rq
+}
+
+// c15RecvLoopsIdle reports whether every requester receive loop of this process is parked in its socket read (and how many
+// there are): nothing read from a socket is still being processed.
+func c15RecvLoopsIdle() (bool, int) {
+	buf := make([]byte, 1<<20)
+	for {
+		k := runtime.Stack(buf, true)
+		if k < len(buf) {
+			buf = buf[:k]
+			break
+		}
+		buf = make([]byte, 2*len(buf))
+	}
+	n, idle := 0, true
+	for _, blk := range bytes.Split(buf, []byte("\n\n")) {
+		if !bytes.Contains(blk, []byte("requester.(*DNSPacketConn).recvLoop(")) {
+			continue
+		}
+		n++
+		if !bytes.HasPrefix(blk, []byte("goroutine ")) || !bytes.Contains(blk[:bytes.IndexByte(blk, '\n')+1], []byte("[IO wait")) {
+			idle = false
+		}
+	}
+	return idle, n
 }
 
 type c15Call struct {
@@ -520,6 +599,8 @@ type c15Call struct {
 	reqFits  bool
 	marks    c15Marks    // log counters when the call was started
 	tmarks   c15TapMarks // datagram counters of the responder's socket when the call was started
+	rreads   int         // datagrams read by this requester's receive loop when the call was started
+	foreign  bool        // the requester's base domain is deliberately not the responder's: an error is the expected outcome
 	done     chan struct{}
 	res      []byte
 	err      error
@@ -529,6 +610,9 @@ type c15Call struct {
 func (s *c15Server) start(rq *requester.Requester, desc string, payload, response []byte) *c15Call {
 	c := &c15Call{s: s, rq: rq, desc: desc, payload: payload, response: response, done: make(chan struct{}),
 		reqFits: c15FitsName(c15NoiseOverhead+len(payload), s.domain), marks: c15Logs.marks(), tmarks: s.tap.marks()}
+	if rt := c15ReqTapOf(rq); rt != nil {
+		c.rreads = rt.n()
+	}
 	s.mu.Lock()
 	s.expected[string(payload)] = response
 	delete(s.calls, string(payload))
@@ -596,7 +680,7 @@ func (c *c15Call) judge(rec *kit.Rec, exclusive bool) {
 				rec.Violation("exchange:"+reqClass+":requester-refuses-response-encoded-and-sent-without-error",
 					"the responder encrypted, framed and sent the callback's value without an error, but RequestAndRecv could not decode it", d)
 				return
-			case calls == 0 && x.reqs > 0:
+			case calls == 0 && x.reqs > 0 && !c.foreign:
 				rec.Violation("exchange:"+reqClass+":responder-refuses-request-encoded-without-error",
 					"the requester encoded and sent the request without an error but the responder could not decode it (its callback never ran)", d)
 				return
@@ -679,9 +763,27 @@ func c15Stuck(rec *kit.Rec, calls []*c15Call, finishedWithCallback int, marks c1
 			"datagrams_received_by_responder_since_start": x.reqs, "answers_sent_by_responder_since_start": x.answers,
 			"requester_name_encoder_refusals_logged_since_start": sendDrops, "responder_answer_encoder_refusals_logged_since_start": respDrops,
 			"requester_log": c15Logs.last("send: ", 3), "responder_log": append(append(c15Logs.last("dnsRespToUDPResp err", 2), c15Logs.last("AddFormat err", 2)...), c15Logs.last("RemoveFormat err", 2)...)}
+		readByRequester := 0
+		if rt := c15ReqTapOf(c.rq); rt != nil {
+			readByRequester = rt.n() - c.rreads
+		}
+		recvIdle, recvLoops := c15RecvLoopsIdle()
+		d["answer_datagrams_read_by_this_requesters_receive_loop"] = readByRequester
+		d["requester_receive_loops_all_parked_in_socket_read"] = recvIdle
+		d["requester_receive_loops"] = recvLoops
+		d["answers_carrying_data_sent_by_responder_since_start"] = x.answersWithData
 		switch {
 		case !stable:
 			rec.Inconclusive("call still running after the watchdog but no stable parked state", d)
+		case readByRequester >= 1 && recvIdle && x.answers >= 1:
+			// the responder put an answer on the wire, this requester's receive loop read it from its socket and is parked in the
+			// socket read again, and RequestAndRecv is still waiting: the answer was swallowed
+			kind := "answer-without-data"
+			if x.answersWithData >= len(calls)+finishedWithCallback {
+				kind = "answer-with-data"
+			}
+			rec.Violation("exchange:"+c.reqClass()+":"+kind+"-read-by-requester-but-swallowed-and-RequestAndRecv-blocks-forever",
+				"the responder's answer reached the requester's receive loop, which dropped it: RequestAndRecv returns neither the reply nor an error", d)
 		case n == 0 && x.reqs <= withCallback+finishedWithCallback && sendDrops >= noCallback:
 			rec.Violation("exchange:"+c.reqClass()+":never-sent-and-RequestAndRecv-blocks-forever",
 				"the request was refused by the requester's name encoder, but the refusal is only logged: RequestAndRecv neither returns an error nor an answer", d)
@@ -755,6 +857,7 @@ func TestVerifC15Exchange(t *testing.T) {
 
 	// ---- sequential sweep: one call in flight at a time, so every logged drop belongs to the call that is running --------
 	stuckN := 0
+	foreign := false
 	run := func(s *c15Server, rq **requester.Requester, reqLen, respLen int, note string) {
 		if stuckN >= 2 { // two calls that never return are enough evidence; each costs a full watchdog
 			return
@@ -764,6 +867,7 @@ func TestVerifC15Exchange(t *testing.T) {
 		rec.Case(desc)
 		rec.Count("evaluations", 1)
 		c := s.start(*rq, desc, p, resp)
+		c.foreign = foreign
 		if c.finished(c15Watchdog) {
 			c.judge(rec, true)
 			s.mu.Lock()
@@ -779,6 +883,15 @@ func TestVerifC15Exchange(t *testing.T) {
 		c.finished(10 * time.Second)
 	}
 
+	// error-RCODE path through the real pair: a requester whose base domain the responder is not authoritative for gets an
+	// NXDOMAIN answer; RequestAndRecv must turn that into an error (the callback never runs)
+	foreign = true
+	for i, other := range []string{"other.example.net", "example.com", "u.t.example.org"} {
+		s := servers[doms[0]]
+		rq := s.newRequesterFor(t, other)
+		run(s, &rq, 20+i, 30, "requester-base-domain="+other+" (responder answers NXDOMAIN)")
+	}
+	foreign = false
 	for di, d := range doms {
 		s := servers[d]
 		rq := s.newRequester(t)
